@@ -324,7 +324,13 @@ def handle (j : Json) : Except String Verdict := do
         if schemaRefused then "na"
         else if ia.lookup "field" == none || ia.lookup "data_type" == none then "fail"
         else if anyMalformed || blamed.isEmpty then "na"
-        else if blamed.contains ((ia.lookup "field").getD "") then "pass" else "fail"
+        else if blamed.contains ((ia.lookup "field").getD "") then "pass"
+        -- an `UnknownVariant` placeholder refuses EVERY call by design (also the defaults a `None` above it issues); where
+        -- such a placeholder sits outside a union the documented mapping still gives the row a value, so `Spec.blameRow`
+        -- (positions where the mapping is undefined) has no claim about this refusal — and the error does name the innermost
+        -- field being processed (thorough tier of C18, vp run #6, case build-023899: FALSE ALARM of the predicate)
+        else if ia.lookup "data_type" == some "<unknown variant>" then "na"
+        else "fail"
       return { agree := annEq, spec := [("C16", c16), ("C05", "pass"), ("C01", "na"), ("C03", "na"), ("C18", c18)], tags := "err" :: (if schemaRefused then "schema-refused" :: tags else tags),
                sig := if !annEq then s!"build/ann/{(ma.lookup "data_type").getD "-"}" else if c18 == "fail" then s!"build/C18/{(ia.lookup "data_type").getD "-"}" else "",
                why := if !annEq then s!"annotations: model {repr ma}, implementation {repr ia}" else if c18 == "fail" then s!"blamed field {repr (ia.lookup "field")} not among {repr blamed}" else "" }
